@@ -291,7 +291,7 @@ static void* rw_read(int ty, char* path, size_t* cnt, int* st)
 	}
 }
 /* rw <type 0..9> <dataEndianType> <mode> <values>
- * mode 0: library writer, then library reader; mode 1: a file with every element byte-swapped (written with
+ * mode 0: library writer, then library reader (3: read repeatedly; 4, 5: the Fortran-callable readers); mode 1: a file with every element byte-swapped (written with
  * writeByteData), read with the opposite endianness declared; mode 2: reader on a missing file. */
 static void op_rw(int argc, char** a)
 {
@@ -324,6 +324,22 @@ static void op_rw(int argc, char** a)
 		dataEndianType = saved;
 		printf("st_w=%d st_r=%d n=%zx iter=%d fds=%d\n", st_w, st_r, cnt, bad_iter, count_fds() - fds0);
 		unlink(path); free(buf); free(l);
+		return;
+	}
+	if (mode == 4 || mode == 5) {
+		/* the Fortran-callable readers of rwf.c (bytes, float, double; path passed with its length): mode 4 on a file written by the binary writer,
+		 * mode 5 on a missing file (they have no status argument: the count must come back 0 and nothing may crash) */
+		int plen = (int)strlen(path); size_t cnt = n; void* out = calloc(n + 8, (size_t)es);
+		if (mode == 4) { if (ty == SZ_FLOAT) writeFloatData_inBytes((float*)buf, n, path, &st_w); else if (ty == SZ_DOUBLE) writeDoubleData_inBytes((double*)buf, n, path, &st_w); else writeByteData(buf, n, path, &st_w); }
+		else { unlink(path); st_w = 0; }
+		dataEndianType = sysEndianType;
+		if (ty == SZ_FLOAT) readfloatfile_(path, &plen, (float*)out, &cnt); else if (ty == SZ_DOUBLE) readdoublefile_(path, &plen, (double*)out, &cnt); else readbytefile_(path, &plen, (unsigned char*)out, &cnt);
+		dataEndianType = saved;
+		printf("st_w=%d st_r=0 n=%zx fds=%d vals=", st_w, cnt, count_fds() - fds0);
+		if (cnt == 0) printf("_");
+		else for (size_t i = 0; i < cnt && i < n; i++) { uint64_t v = 0; memcpy(&v, (char*)out + i * es, es); printf(i ? ",%" PRIx64 : "%" PRIx64, v); }
+		printf(" file=_\n");
+		unlink(path); free(buf); free(l); free(out);
 		return;
 	}
 	if (mode == 0) {
